@@ -85,6 +85,47 @@ func (t *gtree) build() geom.T {
 	}
 }
 
+// buildShared is build, except that sub-geometries with the same description are one and the same
+// object (a collection may hold one geometry in several places).
+func (t *gtree) buildShared(memo map[string]geom.T) geom.T {
+	key := t.sx()
+	if g, ok := memo[key]; ok {
+		return g
+	}
+	var g geom.T
+	if t.kind == "gc" {
+		gc := geom.NewGeometryCollection().SetSRID(t.srid)
+		for _, m := range t.members {
+			gc.MustPush(m.buildShared(memo))
+		}
+		if t.layout != geom.NoLayout {
+			gc.MustSetLayout(t.layout)
+		}
+		g = gc
+	} else {
+		g = t.build()
+	}
+	memo[key] = g
+	return g
+}
+
+// repeatMembers makes the collection hold one of its members once more — directly, or inside a
+// further member collection (one repetition per tree: the description must stay small).
+func (t *gtree) repeatMembers(r *Rng) {
+	if t.kind != "gc" || len(t.members) == 0 {
+		return
+	}
+	m := t.members[r.Intn(len(t.members))]
+	if len(m.sx()) > 4000 {
+		return
+	}
+	if r.chance(1, 3) {
+		m = &gtree{kind: "gc", layout: geom.NoLayout, members: []*gtree{m}}
+	}
+	at := r.Intn(len(t.members) + 1)
+	t.members = append(t.members[:at:at], append([]*gtree{m}, t.members[at:]...)...)
+}
+
 // observe prints a library value in the abstract wire form (through Coords()).
 func observe(g geom.T) string {
 	switch g := g.(type) {
